@@ -6,9 +6,10 @@ pub mod c03;
 pub mod c04;
 pub mod c05;
 pub mod c07;
+pub mod c16;
 pub mod tzchild;
 
-pub const ALL: &[&str] = &["C01", "C02", "C03", "C04", "C05", "C07"];
+pub const ALL: &[&str] = &["C01", "C02", "C03", "C04", "C05", "C07", "C16"];
 
 pub fn run(ctx: &Ctx) -> Option<Outcome> {
     match ctx.prop.as_str() {
@@ -18,6 +19,7 @@ pub fn run(ctx: &Ctx) -> Option<Outcome> {
         "C04" => Some(c04::run(ctx)),
         "C05" => Some(c05::run(ctx)),
         "C07" => Some(c07::run(ctx)),
+        "C16" => Some(c16::run(ctx)),
         _ => None,
     }
 }
@@ -26,6 +28,7 @@ pub fn run(ctx: &Ctx) -> Option<Outcome> {
 pub fn child(mode: &str, args: &[String]) -> i32 {
     match mode {
         "tzq" => tzchild::child_main(args),
+        "c16x" => c16::child_extremes(args),
         _ => {
             eprintln!("unknown child mode");
             3
